@@ -49,8 +49,10 @@ Redef == /\ st = "up" /\ Len(hist) < MaxOps /\ ntag < 2
               /\ Add([ev |-> "redef", method |-> method, path |-> path, tag |-> "v" \o ToString(ntag + 1)])
          /\ ntag' = ntag + 1 /\ UNCHANGED st
 
+\* busy = a request whose handler is still running occupies the io loop while .webc is evaluated: .webc may only
+\* return once the server is really down (the harness probes the port the moment .webc returns)
 Webc == /\ st = "up" /\ Len(hist) < MaxOps
-        /\ Add([ev |-> "webc", res |-> 1])
+        /\ \E busy \in BOOLEAN : Add([ev |-> "webc", res |-> 1, busy |-> busy])
         /\ st' = "down" /\ UNCHANGED ntag
 
 Next == Start \/ Request \/ Redef \/ Webc
